@@ -22,8 +22,8 @@ theorem C17_frontends_agree {P1 P2 : Program} {env1 env2 : CEnv}
     (r1 : Exec P1 cfg inp c1 0 St.init Frame.empty (o1, s1))
     (r2 : Exec P2 cfg inp c2 0 St.init Frame.empty (o2, s2)) :
     o1 = o2 ∧ s1.pos = s2.pos ∧ (o1 = .ret true → s1.tree.take s1.ti = s2.tree.take s2.ti) := by
-  have a := R_rule_all h1 f1 hev rfl (Nat.zero_le _) (by simp [St.init]) (by simp [St.init]) r1
-  have b := R_rule_all h2 f2 hev rfl (Nat.zero_le _) (by simp [St.init]) (by simp [St.init]) r2
+  have a := R_rule_all h1 f1 hev rfl (Nat.zero_le _) (by simp [St.init]) memoOK_init r1
+  have b := R_rule_all h2 f2 hev rfl (Nat.zero_le _) (by simp [St.init]) memoOK_init r2
   cases res with
   | ok p' f =>
     obtain ⟨a1, a2, _, a4, _⟩ := a
